@@ -394,7 +394,7 @@ E2E_SEARCHES = ["drawer", "emcee", "dynesty_static", "dynesty_dynamic", "bfgs", 
 MULTICORE = ("emcee", "dynesty_static", "dynesty_dynamic", "bfgs", "lbfgs", "pyswarms_global", "pyswarms_local")
 
 
-def gen_e2e(rng, search, cores=1, thorough=False, force_reject=False):
+def gen_e2e(rng, search, cores=1, thorough=False, force_reject=False, force_chunks=False):
     spec = gen_spec(rng, max_priors=3)
     if not any(p["family"] == "gaussian" for p in spec["priors"]):
         # a flat prior has log prior 0.0: likelihood and posterior would be indistinguishable
@@ -411,7 +411,13 @@ def gen_e2e(rng, search, cores=1, thorough=False, force_reject=False):
     elif search in ("bfgs", "lbfgs"):
         settings = {"visualize": rng.random() < 0.5}
     elif search in ("pyswarms_global", "pyswarms_local"):
-        settings = {"n_particles": rng.randint(4, 7), "iters": rng.randint(2, 6)}
+        settings = {"n_particles": rng.randint(5, 8), "iters": rng.randint(2, 6)}
+        if rng.random() < 0.8 or force_chunks:
+            # several update chunks (iterations_per_update < iters): _fit re-creates the optimiser per chunk, the result
+            # is converted from the last one; the last chunk is short so that particles can spend all of it in the
+            # FitException region after having had a valid personal best before
+            settings["iterations_per_update"] = rng.choice([2, 3])
+            settings["iters"] = settings["iterations_per_update"] * rng.randint(2, 3) + rng.randint(1, 2)
     elif search == "drawer":
         settings = {"total_draws": rng.randint(3, 20)}
     case = {"kind": "e2e", "search": search, "spec": spec, "terms": terms, "cores": cores, "seed": rng.randrange(10 ** 6),
@@ -426,15 +432,21 @@ def gen_e2e(rng, search, cores=1, thorough=False, force_reject=False):
     if search in ("drawer", "bfgs", "lbfgs", "dynesty_static", "dynesty_dynamic") and cores == 1:
         case["refit"] = True
     if (search == "drawer" and (force_reject or rng.random() < 0.5)) or \
-            (search in ("emcee", "dynesty_static", "dynesty_dynamic", "pyswarms_global", "pyswarms_local")
-             and (cores >= 2 or rng.random() < 0.5)):
+            search in ("pyswarms_global", "pyswarms_local") or \
+            (search in ("emcee", "dynesty_static", "dynesty_dynamic") and (cores >= 2 or rng.random() < 0.5)):
         # a region where the fit raises FitException: the initializer must drop those draws
         # without shifting the likelihoods of the remaining ones
         path, (kind, k) = rng.choice([lf for lf in leaves(spec["root"]) if lf[1][0] == "p"])
         p = spec["priors"][k]
         lo, hi = unhex(p["lo"]), unhex(p["hi"])
         a = lo + (hi - lo) * rng.choice([0.0, 0.25, 0.5])
-        case["reject"] = [path.split("."), a, a + (hi - lo) * rng.choice([0.25, 0.4])]
+        width = rng.choice([0.25, 0.4])
+        if search.startswith("pyswarms"):
+            # wide, and on the other side of this path's optimum, so that the swarm is not drawn into it as a whole
+            t = [tt for pth, cc, tt in terms if ".".join(pth) == path][0]
+            width = 0.4
+            a = lo + (hi - lo) * (0.55 if (t - lo) / (hi - lo) < 0.5 else 0.05)
+        case["reject"] = [path.split("."), a, a + (hi - lo) * width]
     return case
 
 
@@ -447,6 +459,8 @@ def close(a, b, scale=1.0):
         return False
     if a == b:
         return True
+    if math.isinf(a) or math.isinf(b) or math.isinf(scale):
+        return False        # an infinite value is close to nothing but itself (inf <= 1e-8 * inf would hold)
     return abs(a - b) <= 1e-8 * max(1.0, abs(a), abs(b), scale)
 
 
@@ -495,7 +509,14 @@ def oracle(c, r):
         if c.get("reject"):
             rp, rlo, rhi = c["reject"]
             rejected = rlo <= vals[prior_of_path[".".join(rp)]] < rhi
-        if rejected and c["search"] == "dynesty_dynamic":
+        outside = c["kind"] == "e2e" and any(
+            p["family"] == "uniform" and not (unhex(p["lo"]) <= vals[k] <= unhex(p["hi"])) for k, p in enumerate(spec["priors"]))
+        if outside and c["search"] in ("bfgs", "lbfgs"):
+            # the unconstrained optimiser left a uniform prior's limits: building the instance raises
+            # PriorLimitException there, the model cannot be evaluated and Fitness returns its resample value
+            if not math.isinf(ll):
+                add("ll", "sample %d lies outside a uniform prior's limits (not evaluable) and reports %r instead of a resample value" % (i, ll))
+        elif rejected and c["search"] == "dynesty_dynamic":
             # DynamicNestedSampler draws its own first live points (no autofit initializer): a point where the
             # likelihood raises FitException is kept with the resample value Fitness returns for it
             if ll != -1.0e99:
@@ -602,7 +623,14 @@ def contract_fails(c, r):
     col = col_of(spec)
     kind = dict(leaves(spec["root"]))
 
+    def outside_limits(vec):
+        return any(p["family"] == "uniform" and not (unhex(p["lo"]) <= vec[col[k]] <= unhex(p["hi"]))
+                   for k, p in enumerate(spec["priors"]))
+
     def in_reject(vec):
+        """the model cannot be evaluated at vec: FitException region, or outside a uniform prior's limits"""
+        if outside_limits(vec):
+            return True
         if not rej:
             return False
         k = kind[".".join(rej[0])][1]
@@ -620,6 +648,8 @@ def contract_fails(c, r):
 
     def check_post(vec, got, where, resample):
         if in_reject(vec):
+            if s in ("bfgs", "lbfgs") and math.isinf(got):
+                return      # -0.5 * (resample value -inf of a chi-squared fitness) = +inf
             if got != resample and not (math.isnan(got) and math.isnan(resample)):
                 bad("%s: point %r lies in the FitException region but carries %r (resample value %r)" % (where, vec, got, resample))
             return
@@ -819,7 +849,7 @@ def gen_cases(ctx):
             if s in MULTICORE:
                 plan += [(s, 2)] * 3
     for s, cores in plan:
-        e2e.append(gen_e2e(rng, s, cores, thorough))
+        e2e.append(gen_e2e(rng, s, cores, thorough, force_chunks=(cores == 1)))
     for _ in range(1 if not thorough else 4):
         e2e.append(gen_e2e(rng, "drawer", 1, thorough, force_reject=True))
     return cases, e2e
@@ -923,6 +953,7 @@ def run(ctx):
     cases = conv + e2e
     coq_cases, coq_idx = [], []
     emcee_runs = {"total": 0, "with_samples": 0, "degenerate": 0, "result_unobservable": 0}
+    pyswarms_runs = {"observed": 0, "multi_chunk_observed": 0, "crashed": 0}
     for i, (c, r) in enumerate(zip(cases, results)):
         key = {k: v for k, v in c.items() if k != "idx"}
         ctx.count_case(key, nontrivial(c), "%s:%s" % (c["kind"], c["search"]))
@@ -952,6 +983,13 @@ def run(ctx):
                 and math.floor(unhex(c["state"]["tau"]) / 2.0) == 0
             degenerate = c["kind"] == "e2e" and c["search"] == "emcee" and any(
                 t in (r.get("msg") or "") for t in ("slice step cannot be zero", "cannot convert float NaN to integer"))
+            if c["kind"] == "e2e" and c["search"].startswith("pyswarms") and r["exc"] == "ValueError" \
+                    and "could not be broadcast together with shapes (0,)" in (r.get("msg") or ""):
+                # pyswarms itself: a fresh optimiser whose whole swarm is unevaluable in its first iteration has no
+                # best position yet and dies in compute_velocity; no result is returned at all
+                ctx.hist("outcome", "e2e-pyswarms-no-evaluable-particle")
+                pyswarms_runs["crashed"] += 1
+                continue
             if degenerate:
                 # the real chain's autocorrelation time came out < 2 (thin = 0) or NaN: no result is returned at all
                 ctx.hist("outcome", "e2e-emcee-degenerate-autocorr")
@@ -979,6 +1017,10 @@ def run(ctx):
         fails = oracle(c, ok_r)
         if c["kind"] == "e2e":
             fails = contract_fails(c, ok_r) + fails
+            if c["search"].startswith("pyswarms"):
+                pyswarms_runs["observed"] += 1
+                if c["settings"].get("iterations_per_update"):
+                    pyswarms_runs["multi_chunk_observed"] += 1
             if c["search"] == "emcee":
                 emcee_runs["total"] += 1
                 if ok_r["obs"]["samples"]:
@@ -1015,6 +1057,12 @@ def run(ctx):
     if n_emcee and not ctx.replay:
         ctx.obligation("e2e:emcee-observed", "harness", emcee_runs["with_samples"] >= 1,
                        "%d emcee runs, %d returned samples, %d degenerate" % (n_emcee, emcee_runs["with_samples"], emcee_runs["degenerate"]))
+    n_ps = sum(1 for c in e2e if c["search"].startswith("pyswarms") and c["settings"].get("iterations_per_update"))
+    if n_ps and not ctx.replay:
+        ctx.obligation("e2e:pyswarms-multi-update-observed", "harness", pyswarms_runs["multi_chunk_observed"] >= 1,
+                       "%d PySwarms runs spanning several updates with a FitException region, %d returned a result, %d died inside pyswarms"
+                       % (n_ps, pyswarms_runs["multi_chunk_observed"], pyswarms_runs["crashed"]))
+    ctx.notes["pyswarms_runs"] = pyswarms_runs
     ctx.notes["emcee_runs"] = emcee_runs
     if emcee_runs["result_unobservable"]:
         ctx.notes["emcee_result_not_observable"] = (
